@@ -127,3 +127,33 @@ func finish(s *simrt.Sim, w *world.World, st Stats, deadlockIsViolation bool) Ou
 }
 
 func count(m map[string]int, k string) { m[k]++ }
+
+// Stubs says, per property, which parts of the simulated system are stubs/fakes (everything else
+// is the repository's real code, instrumented through the build overlay).
+var Stubs = map[string][]string{}
+
+func init() {
+	worldStubs := []string{"metastore (SimStore: insert-only JSON table with RPC yields and faults)", "KMS (SimKMS: AES-GCM under a fixed master key)", "secure memory (pure-Go tracking factory)", "operator and foreign-implementation node (harness)", "wall clock (virtual)", "crypto/rand (seeded DRBG)"}
+	for _, id := range []string{"C01", "C02", "C03", "C04", "C05", "C06", "C07", "C08", "C09", "C14", "C16", "C18", "C20"} {
+		Stubs[id] = worldStubs
+	}
+	Stubs["C10"] = []string{"metastore (SimStore)", "KMS (SimKMS)", "fake regional AWS KMS nodes", "wall clock (virtual)"}
+	Stubs["C11"] = []string{"none below the memcall interface: real mmap/mlock/mprotect via an interposed pass-through memcall"}
+	Stubs["C12"] = []string{"memcall interposer (pass-through + injected failures)", "crypto/rand (seeded DRBG that can fail)"}
+	Stubs["C13"] = []string{"database/sql driver + SQL engine (fake, documented schema)", "DynamoDB service (semantic fake with lagging replica)"}
+	Stubs["C15"] = []string{"cache.Clock (virtual clock through the public WithClock seam)"}
+	Stubs["C17"] = []string{"regional AWS KMS services (fake nodes behind the plugins' client interfaces)"}
+	Stubs["C18"] = append(append([]string{}, worldStubs...), "database/sql driver (fake)", "DynamoDB service (fake)", "gRPC transport (in-memory stream)")
+	Stubs["C19"] = append(append([]string{}, worldStubs...), "gRPC/HTTP-2 transport (in-memory stream)")
+}
+
+// Thorough reports whether the thorough tier was requested.
+func (o Opts) Thorough() bool { return o.Tier == "thorough" }
+
+// scale picks a bound by tier.
+func scale(o Opts, quick, thorough int) int {
+	if o.Thorough() {
+		return thorough
+	}
+	return quick
+}
